@@ -161,8 +161,60 @@ def run(ctx):
         if proof_err is None:
             ctx.broken('corr/c12 model evaluation', e.log)
             return
+    # IsEqual means ==, nothing else: objects outside the model's value universe whose == is not reflexive, or always true
+    odd = odd_equality_probe()
+    ctx.extra['odd_equality_probe'] = odd
+    ctx.evaluations += len(odd.get('rows', []))
+    if 'rows' not in odd:
+        failures += 1
+        ctx.report({'clause': 'odd_equality_probe_crashed'}, odd, 'the IsEqual probe crashed')
+    for r in odd.get('rows', []):
+        if r['generated'] != r['meaning'] or r['is_valid'] != r['meaning'] or r['nested'] != r['meaning']:
+            if ctx.report({'clause': 'isequal_is_not_equality', 'pair': r['pair']}, r,
+                          'IsEqual[v] disagrees with obj == v (generated code / is_valid / nested in a list)') == 'violation':
+                failures += 1
     if proof_err is not None and not failures:
         ctx.broken(f'{PROP} ({proof_err.what})', proof_err.log)
+
+
+ODD_PROBE = r'''
+import json
+from typing import Annotated, List
+from beartype.door import is_bearable
+from beartype.vale import IsEqual
+class NeverEq:
+    def __eq__(self, other): return False
+    __hash__ = object.__hash__
+class AlwaysEq:
+    def __eq__(self, other): return True
+    __hash__ = object.__hash__
+class EqFalsy:                      # == answers a falsy non-bool
+    def __eq__(self, other): return 0
+    __hash__ = object.__hash__
+nan = float('nan')
+objs = {'nan': nan, 'never': NeverEq(), 'always': AlwaysEq(), 'falsy': EqFalsy(), 'one': 1, 'true': True, 'onef': 1.0, 'lst': [nan], 'tup': (nan,),
+        'empty': [], 'str': 'a'}
+rows = []
+for vn, v in objs.items():
+    v_ = IsEqual[v]
+    for on, o in objs.items():
+        meaning = bool(o == v)
+        rows.append({'pair': on + '==' + vn, 'meaning': meaning,
+                     'generated': bool(is_bearable(o, Annotated[object, v_])),
+                     'is_valid': bool(v_.is_valid(o)),
+                     'nested': bool(is_bearable([o], List[Annotated[object, v_]]))})
+print(json.dumps({'rows': rows}))
+'''
+
+
+def odd_equality_probe():
+    import subprocess
+    from harness.common import PY, impl_env
+    p = subprocess.run([PY, '-c', ODD_PROBE], capture_output=True, text=True, env=impl_env(), timeout=120)
+    try:
+        return json.loads(p.stdout.strip().splitlines()[-1])
+    except Exception:  # noqa
+        return {'probe_failed': (p.stderr or 'no output')[-600:]}
 
 
 def replay(ctx, path):
